@@ -382,7 +382,7 @@ def sanitize_row(tier, seed):
         for group, c in sorted(classes.items()):
             ex = {pre: dict(message=mr[0], returned=mr[1]) for pre, mr in sorted(c['examples'].items())}
             first = ex[sorted(ex)[0]]
-            fx.add_failure(row, CL_SAN, 'path-survives-' + group,
+            fx.add_failure(row, CL_SAN + ' [S-8]', 'path-survives-' + group,
                            dict(call='sanitize_paths(message)', message=first['message'],
                                 other_inputs={k: v['message'] for k, v in ex.items()}),
                            f"returned {first['returned']!r}; {c['n']} inputs with leading {sorted(c['pres'])} "
@@ -406,7 +406,8 @@ def sanitize_row(tier, seed):
             fx.note_case(row, ('container', cname), dict(argument=repr(val)))
             flat = ' '.join(t for _, t in strings_of(res))
             if any(p in flat for p in prefixes):
-                fx.add_failure(row, CL_SAN, f'path-survives-in-{cname}',
+                fx.add_failure(row, CL_SAN + (' [S-8]' if cname == 'dict-key' else ''),
+                               f'path-survives-in-{cname}',
                                dict(call='sanitize_paths(argument)', argument=repr(val)), f'returned {res!r}')
     finally:
         shutil.rmtree(root, ignore_errors=True)
